@@ -74,7 +74,11 @@ func vpFamily(bound int) []string {
 			fam = append(fam, s)
 		}
 	}
-	for _, a := range vpArrays([]int{1, 2, 3}, 3) {
+	three := 3
+	if bound >= 5 { // thorough tier
+		three = 4
+	}
+	for _, a := range vpArrays([]int{1, 2, 3}, three) {
 		b, _ := json.Marshal(map[string]interface{}{"a": a})
 		add(string(b))
 	}
@@ -179,7 +183,7 @@ func TestVerifBounded(t *testing.T) {
 			}
 		}
 	}
-	fmt.Printf("VERIF-BOUNDED-SUMMARY harness=docpatch histories=%d steps=%d failures=%d bound=[every ordered pair (current, target) of a family of %d JSON objects: arrays over {1,2,3} up to length 3 and over {1,2} up to length %d under one key, and 25 hand-picked nested objects; 2 replicas] sample=[%s]\n", pairs, 2*pairs, failures, len(fam), bound, sample)
+	fmt.Printf("VERIF-BOUNDED-SUMMARY harness=docpatch histories=%d steps=%d failures=%d bound=[every ordered pair (current, target) of a family of %d JSON objects: arrays over {1,2,3} up to length %d and over {1,2} up to length %d under one key, and 25 hand-picked nested objects; 2 replicas] sample=[%s]\n", pairs, 2*pairs, failures, len(fam), map[bool]int{true: 4, false: 3}[bound >= 5], bound, sample)
 	if failures > 0 {
 		t.Fatalf("%d failing pairs", failures)
 	}
